@@ -18,7 +18,7 @@ CHECKS += [
     {
         "property_id": "C03", "engine": "symx+crosshair", "category": "model_checking",
         "technique": "bounded symbolic execution of Simulator.simulate on a fully symbolic unitary block + z3 (polynomial identities against a permutation-sum permanent); CrossHair (z3) for the rejection of malformed input/output states",
-        "text": "For every complex value of the entries of the circuit's unitary block and every loss value, every amplitude returned by the real Simulator (array, pair index) equals perm(U_full[rows,cols])/sqrt(prod n!) with herald photons inserted on herald modes (in != out allowed) and vacuum on loss modes, for all inputs/outputs within the photon bound, also for lists that repeat a state and for circuits whose modes are all heralded; lossless bs/ps layouts give unit vectors for all parameter values; 4 CrossHair conditions: malformed states (negative/non-integer occupations, wrong length, mixed photon numbers) are rejected.",
+        "text": "For every complex value of the entries of the circuit's unitary block and every loss value, every amplitude returned by the real Simulator (array, pair index) equals perm(U_full[rows,cols])/sqrt(prod n!) with herald photons inserted on herald modes (in != out allowed) and vacuum on loss modes, for all inputs/outputs within the photon bound, also for lists that repeat a state and for circuits whose modes are all heralded; lossless bs/ps layouts give unit vectors for all parameter values; 5 CrossHair conditions: malformed states (negative/non-integer occupations, wrong length, mixed photon numbers) are rejected; Simulator probabilities of bunched inputs up to |9,9> equal an exact binomial reference (real numpy code, machine integers).",
         "design_ref": "DESIGN.md section 4 C03", "note": SYMX_NOTE + " thewalrus.perm is stubbed by a definitional permanent.",
     },
     {
@@ -82,9 +82,9 @@ CHECKS += [
 
 CHECKS += [
     {
-        "property_id": "C04", "engine": "symx", "category": "model_checking",
-        "technique": "bounded symbolic execution of SLOS, both branches of full_probability_distribution, pdist_calc and Sampler.probability_distribution with symbolic circuit parameters; every 1e-9 threshold comparison forks; z3 decides feasibility and the inequalities (monomial-linearised QF_LRA relaxation first, then nlsat)",
-        "text": "For all reflectivities, phases and loss values on the listed shapes and all inputs within the photon bound (also with every photon on a heralded mode), on every feasible threshold path: the SLOS kernel returns the definitional amplitudes on an arbitrary matrix; each backend's non-vacuum entries equal the loss-marginalised probability minus exactly the sub-threshold terms, are non-negative and never exceed the exact value; the sampler's distribution (real pdist_calc, also with arbitrary stubbed sub-distributions) sums to one within the truncation slack, keeps the full vacuum weight, and permanent and slos agree within that slack.",
+        "property_id": "C04", "engine": "symx+crosshair", "category": "model_checking",
+        "technique": "bounded symbolic execution of SLOS, both branches of full_probability_distribution, pdist_calc and Sampler.probability_distribution with symbolic circuit parameters; every 1e-9 threshold comparison forks; z3 decides feasibility and the inequalities (monomial-linearised QF_LRA relaxation first, then nlsat); CrossHair (z3) chooses bunched occupation numbers for the real numpy normalisation code",
+        "text": "For all reflectivities, phases and loss values on the listed shapes and all inputs within the photon bound (also with every photon on a heralded mode), on every feasible threshold path: the SLOS kernel returns the definitional amplitudes on an arbitrary matrix; each backend's non-vacuum entries equal the loss-marginalised probability minus exactly the sub-threshold terms, are non-negative and never exceed the exact value; the sampler's distribution (real pdist_calc, also with arbitrary stubbed sub-distributions) sums to one within the truncation slack, keeps the full vacuum weight, and permanent and slos agree within that slack; 3 CrossHair conditions run the real numpy/numba normalisation on solver-chosen bunched inputs (<= 24 photons on 2 modes for slos, <= 14 for permanent) against an exact binomial reference - the part of the claim that depends on machine-integer behaviour, which the real-arithmetic engine cannot see.",
         "design_ref": "DESIGN.md section 4 C04", "note": SYMX_NOTE + " Solver 'unknown' on a branch is treated as feasible (over-approximation).",
     },
 ]
